@@ -5,6 +5,7 @@ import (
 	"errors"
 	"fmt"
 	"math"
+	"strconv"
 	"strings"
 	"testing"
 
@@ -37,6 +38,47 @@ type C15Scenario struct {
 	Faults   map[string][]int `json:"faults"`
 	CbYields int              `json:"cb_yields"` // yields inside store callbacks
 	Sized    bool             `json:"sized"`     // stored values report sizes of their own to the LRU facade (some exceed its capacity)
+	KeyKind  int              `json:"key_kind"`  // which of the package's key types carries the keys (0 Int, 1 Int64, 2 UInt64, 3 IntCRC, 4 Int64CRC, 5 UInt64CRC, 6 String)
+}
+
+// mkKey / keyOf: the drawn integer key as one of the package's own key types, and back (both injective on the drawn keys).
+func mkKey(kind, k int) mux.Hashed2Int {
+	switch kind {
+	case 1:
+		return mux.Int64(int64(k))
+	case 2:
+		return mux.UInt64(uint64(k))
+	case 3:
+		return mux.IntCRC(k)
+	case 4:
+		return mux.Int64CRC(int64(k))
+	case 5:
+		return mux.UInt64CRC(uint64(k))
+	case 6:
+		return mux.String(strconv.Itoa(k))
+	}
+	return mux.Int(k)
+}
+
+func keyOf(d interface{}) int {
+	switch v := d.(type) {
+	case mux.Int:
+		return int(v)
+	case mux.Int64:
+		return int(v)
+	case mux.UInt64:
+		return int(v)
+	case mux.IntCRC:
+		return int(v)
+	case mux.Int64CRC:
+		return int(v)
+	case mux.UInt64CRC:
+		return int(v)
+	case mux.String:
+		n, _ := strconv.Atoi(string(v))
+		return n
+	}
+	panic(fmt.Sprintf("store callback got a key of type %T", d))
 }
 
 var muxKeys = []int{0, 1, 2, -1, 7, math.MinInt}
@@ -47,6 +89,7 @@ func drawC15(rt *rapid.T) interface{} {
 	sc.Deep = rapid.SampledFrom([]int{2, 8, 64}).Draw(rt, "deep")
 	sc.LRUCap = rapid.SampledFrom([]int64{0, 0, 1, 2, 3}).Draw(rt, "lrucap")
 	sc.Gen = rapid.IntRange(0, 3).Draw(rt, "cachegen") == 0
+	sc.KeyKind = rapid.SampledFrom([]int{0, 0, 0, 1, 2, 3, 4, 5, 6}).Draw(rt, "keykind")
 	sc.CbYields = rapid.IntRange(0, 2).Draw(rt, "cby")
 	sc.Sized = rapid.Bool().Draw(rt, "sized")
 	nk := rapid.IntRange(1, 4).Draw(rt, "nkeys")
@@ -219,7 +262,7 @@ func runC15(t *testing.T, sci interface{}, keepLog bool) *hx.Outcome {
 		}
 		mkLoad := func(rec *muxRec, consulted *bool) mux.RenewDataFn {
 			return func(ctx context.Context, d interface{}) (interface{}, error) {
-				k := int(d.(mux.Int))
+				k := keyOf(d)
 				if consulted != nil {
 					*consulted = true
 				}
@@ -282,7 +325,7 @@ func runC15(t *testing.T, sci interface{}, keepLog bool) *hx.Outcome {
 		}
 		mkDelete := func(rec *muxRec) mux.DeleteFn {
 			return func(ctx context.Context, d interface{}) error {
-				k := int(d.(mux.Int))
+				k := keyOf(d)
 				ok, leave := st.enter("delete", k, rec)
 				defer leave()
 				if !ok {
@@ -297,7 +340,7 @@ func runC15(t *testing.T, sci interface{}, keepLog bool) *hx.Outcome {
 		// audit: whatever the cache holds for k equals the store
 		audit := func(k int, why string) {
 			consulted := false
-			v, err := g.DoGet(hx.NewCtx("audit"), mkLoad(nil, &consulted), mux.Int(k))
+			v, err := g.DoGet(hx.NewCtx("audit"), mkLoad(nil, &consulted), mkKey(sc.KeyKind, k))
 			s.Logf("audit(%s) key=%d -> %v %v consulted=%v store=%v", why, k, v, err, consulted, st.data[k])
 			if consulted {
 				s.Count("audit-uncached")
@@ -336,7 +379,7 @@ func runC15(t *testing.T, sci interface{}, keepLog bool) *hx.Outcome {
 					recs = append(recs, rec)
 					st.byVer[op.Ver] = rec
 					data := storeVal{op.Key, op.Ver}
-					key := mux.Int(op.Key)
+					key := mkKey(sc.KeyKind, op.Key)
 					consulted := false
 					addsBefore := st.calls["add"]
 					ev++
